@@ -25,7 +25,7 @@ import (
 
 // SmimeSpec selects the signing material of a program (C08).
 type SmimeSpec struct {
-	Key   string `json:"key"`   // "" (unsigned), rsa, ecdsa, rsa384 (leaf issued with SHA384WithRSA), ecdsa384 (P-256 leaf issued by a P-384 CA)
+	Key   string `json:"key"`   // "" (unsigned), rsa, ecdsa, rsa384 (leaf issued with SHA384WithRSA), ecdsa384 (P-256 leaf issued by a P-384 CA), ecdsaserial (leaf serial = issuer serial)
 	Inter bool   `json:"inter"` // an intermediate certificate is handed to SignWithKeypair
 }
 
@@ -122,6 +122,8 @@ func Materials() (map[string]*Material, error) {
 		mk("ecdsa", 11, &ecKey.PublicKey, ecKey, inter, intKey, 0)
 		mk("ecdsa384", 12, &ecKey.PublicKey, ecKey, inter384, int384Key, 0) // ecdsa-with-SHA384 by default
 		mk("rsa384", 13, &rsaKey.PublicKey, rsaKey, interRSA, intRSAKey, x509.SHA384WithRSA)
+		// a private PKI that numbers every issuer's certificates from the same start: the leaf has the serial of its issuer
+		mk("ecdsaserial", 2, &ecKey.PublicKey, ecKey, inter, intKey, 0)
 	})
 	return mats, matErr
 }
